@@ -2,9 +2,10 @@
 # Sensitivity self-test (not part of the quick tier): every repaired defect is re-introduced (its fix: commit reverted
 # in a scratch worktree outside /repo and /verif) and every seeded change under seeded/ is applied in turn; the check of
 # the property it breaks must exit 1.  Prints one line per case; exit 0 iff every case was detected.
-# usage: selftest/sensitivity.sh [tier] [jobs]
+# usage: selftest/sensitivity.sh [tier] [jobs] [property-regex]   (with a property filter the summary goes to
+# selftest/sensitivity_partial.txt and sensitivity_last.txt is left alone)
 set -u
-TIER=${1:-quick}; JOBS=${2:-3}
+TIER=${1:-quick}; JOBS=${2:-3}; FILTER=${3:-}
 HERE=$(cd "$(dirname "$0")/.." && pwd)
 OUT=$(mktemp -d /tmp/sensitivity-XXXXXX)
 W=$(( 16 / JOBS )); [ $W -lt 2 ] && W=2
@@ -47,9 +48,10 @@ for s in sorted(os.listdir(HERE+'/seeded')):
     m=json.load(open(f'{HERE}/seeded/{s}/meta.json'))
     print(f"seeded-{s} {m['property']} seeded {s}")
 PY
-} | xargs -P "$JOBS" -L 1 bash -c 'run_case "$@"' _ | tee "$OUT/summary.txt"
+} | { if [ -n "$FILTER" ]; then awk -v f="^($FILTER)$" '$2 ~ f'; else cat; fi; } | xargs -P "$JOBS" -L 1 bash -c 'run_case "$@"' _ | tee "$OUT/summary.txt"
 missed=$(grep -c -v DETECTED "$OUT/summary.txt")
-cp "$OUT/summary.txt" "$HERE/selftest/sensitivity_last.txt"
+DEST="$HERE/selftest/sensitivity_last.txt"; [ -n "$FILTER" ] && DEST="$HERE/selftest/sensitivity_partial.txt"
+cp "$OUT/summary.txt" "$DEST"
 rm -rf "$OUT"
-echo "cases: $(wc -l < "$HERE/selftest/sensitivity_last.txt"), not detected: $missed"
+echo "cases: $(wc -l < "$DEST"), not detected: $missed"
 [ "$missed" -eq 0 ]
